@@ -1,0 +1,34 @@
+//go:build verif
+
+// Contracts for the deductive checker in /verif (govc). Comment-only; ignored without the
+// "verif" build tag.
+//
+// A ValidatorI value handed out by the pos keeper boxes a types.Validator; unbox(v, T) is that
+// record. These interface contracts restate types.Validator's one-line getters.
+
+package exported
+
+//@ iface func (v ValidatorI) IsJailed() (r bool)
+//@   mode value
+//@   ensures r == unbox(v, "x/pos/types.Validator").Jailed
+//@ iface func (v ValidatorI) IsStaked() (r bool)
+//@   mode value
+//@   ensures r == (unbox(v, "x/pos/types.Validator").Status == 2)
+//@ iface func (v ValidatorI) IsUnstaked() (r bool)
+//@   mode value
+//@   ensures r == (unbox(v, "x/pos/types.Validator").Status == 0)
+//@ iface func (v ValidatorI) IsUnstaking() (r bool)
+//@   mode value
+//@   ensures r == (unbox(v, "x/pos/types.Validator").Status == 1)
+//@ iface func (v ValidatorI) GetStatus() (r sdk.StakeStatus)
+//@   mode value
+//@   ensures r == unbox(v, "x/pos/types.Validator").Status
+//@ iface func (v ValidatorI) GetAddress() (r sdk.Address)
+//@   mode value
+//@   ensures r == unbox(v, "x/pos/types.Validator").Address
+//@ iface func (v ValidatorI) GetPublicKey() (r crypto.PublicKey)
+//@   mode value
+//@   ensures r == unbox(v, "x/pos/types.Validator").PublicKey
+//@ iface func (v ValidatorI) GetTokens() (r sdk.Int)
+//@   mode value
+//@   ensures r == unbox(v, "x/pos/types.Validator").StakedTokens
